@@ -218,6 +218,58 @@ func c12Scenario(id string, race bool, senders, perSender, capacity int, seed in
 				c.Violationf("Actor:ran-after-close", rep, "a message sent after Close() returned was processed")
 			}
 		}
+		// closed while busy: the mailbox is closed while a function / message is being processed and the buffer has
+		// free room; work submitted after Close() returned must still never run
+		for _, cap2 := range []int{0, 1, 3} {
+			gate := make(chan struct{})
+			var late atomic.Int32
+			var h *fpgo.HandlerDef
+			if cap2 == 0 {
+				h = fpgo.Handler.New()
+			} else {
+				h = fpgo.Handler.NewByCh(make(chan func(), cap2))
+			}
+			running := make(chan struct{})
+			h.Post(func() { close(running); <-gate })
+			<-running
+			h.Close()
+			for i := 0; i < 4; i++ {
+				h.Post(func() { late.Add(1) })
+			}
+			close(gate)
+			time.Sleep(2 * time.Millisecond)
+			if late.Load() != 0 {
+				c.Violationf("Handler:ran-after-close", rep, "Handler (capacity %d) closed while busy: %d functions posted after Close() returned were run", cap2, late.Load())
+			}
+			gate2 := make(chan struct{})
+			running2 := make(chan struct{}, 1)
+			var late2 atomic.Int32
+			eff := func(self *fpgo.ActorDef[int], m int) {
+				if m == 0 {
+					running2 <- struct{}{}
+					<-gate2
+				} else {
+					late2.Add(1)
+				}
+			}
+			var a *fpgo.ActorDef[int]
+			if cap2 == 0 {
+				a = fpgo.ActorNewGenerics(eff)
+			} else {
+				a = fpgo.ActorNewByOptionsGenerics(eff, make(chan int, cap2), map[string]interface{}{})
+			}
+			a.Send(0)
+			<-running2
+			a.Close()
+			for i := 1; i <= 4; i++ {
+				a.Send(i)
+			}
+			close(gate2)
+			time.Sleep(2 * time.Millisecond)
+			if late2.Load() != 0 {
+				c.Violationf("Actor:ran-after-close", rep, "Actor (capacity %d) closed while busy: %d messages sent after Close() returned were processed", cap2, late2.Load())
+			}
+		}
 		if c.WantSample() {
 			c.Sample(rep)
 		}
@@ -391,8 +443,8 @@ func init() {
 		ID: "C12",
 		Meta: func(c *core.Ctx) core.Meta {
 			return core.Meta{
-				Level: "exploration",
-				Rule: "1..16 concurrent senders x 1..2000 messages (thorough: long runs of 60000) x channel capacity 0..4 (New / NewByCh / NewByOptions) against one Handler and one Actor per scenario; every message carries (sender, seq); the effect is the monitor: normal build = atomic busy counter (must read 1 on entry) + PRNG yields inside the effect, race build = PLAIN counter and PLAIN log append so that the Go race detector (deciding) reports any two effects not ordered by happens-before; after a drain marker the log must hold every message exactly once with each sender's subsequence increasing; self == actor; work submitted after Close returned never runs; spawn trees of depth 1..3 x fan 1..3 for GetParent/GetChild, mailbox independence and spawning from a closed parent. distinct_nontrivial = distinct scenarios",
+				Level:       "exploration",
+				Rule:        "1..16 concurrent senders x 1..2000 messages (thorough: long runs of 60000) x channel capacity 0..4 (New / NewByCh / NewByOptions) against one Handler and one Actor per scenario; every message carries (sender, seq); the effect is the monitor: normal build = atomic busy counter (must read 1 on entry) + PRNG yields inside the effect, race build = PLAIN counter and PLAIN log append so that the Go race detector (deciding) reports any two effects not ordered by happens-before; after a drain marker the log must hold every message exactly once with each sender's subsequence increasing; self == actor; work submitted after Close returned never runs; spawn trees of depth 1..3 x fan 1..3 for GetParent/GetChild, mailbox independence and spawning from a closed parent. distinct_nontrivial = distinct scenarios",
 				Assumptions: []string{"Close is called only after the drain (closing concurrently with senders is property C15)", "actor ids are time stamps; the harness spaces Spawn calls by one clock tick"},
 			}
 		},
